@@ -56,6 +56,7 @@ func (k *Keys) GetCursorPos() (x, y int) {
 		if len(match) == 0 && len(cursor) > 0 {
 			k.mutex.RLock()
 			k.buf = append(k.buf, cursor...)
+			k.mustWait = false
 			k.mutex.RUnlock()
 
 			continue
@@ -72,6 +73,7 @@ func (k *Keys) GetCursorPos() (x, y int) {
 		if _, keys := k.extractCursorPos(cursor); len(keys) > 0 {
 			k.mutex.RLock()
 			k.buf = append(k.buf, keys...)
+			k.mustWait = false
 			k.mutex.RUnlock()
 		}
 
